@@ -65,6 +65,8 @@ def _taylor_integrand(a1, beta0, bs, m, order):
 def case_ei(log, names, concrete_nf=None):
     ei = sym_module("eko.kernels.evolution_integrals")
     log.encode(*[getattr(ei, n) for n in names])
+    for nm in names:  # numeric fall-back if the symbolic run cannot complete (e.g. a real sqrt of a negative constant)
+        log.register_replay("%s:derivative" % nm, (MOD, "replay", {"name": nm, "nf": concrete_nf}), _sampler)
 
     def run():
         a0 = SR.var("a0")
@@ -351,6 +353,8 @@ def _taylor_num(m, beta0, bs, order, a0, a1):
 def _differs(x, y, rtol=1e-8):
     x = complex(x)
     y = complex(y)
+    if x != x or abs(x) == float("inf"):
+        return True  # a non-finite result differs from every integral
     return abs(x - y) > rtol * max(abs(x), abs(y), 1e-30) + 1e-13
 
 
